@@ -30,7 +30,7 @@ from tqv.core import Inconclusive, SubCheck, Violation, req
 # caller-owned arrays handed to the library must come back unchanged (see tqv/purity.py)
 from tqv.purity import install as _install_purity  # noqa: E402
 
-_install_purity('toqito.channel_props', 'toqito.channels', 'toqito.channel_ops')
+_install_purity('toqito.channel_props', 'toqito.channels', 'toqito.channel_ops', twice=True, skip_twice=('pauli_channel',))  # pauli_channel(<int>) draws a random probability vector
 
 PROPERTY = "C06"
 RULE = (
